@@ -13,11 +13,13 @@ import (
 	"go/printer"
 	"go/token"
 	"go/types"
+	"io"
 	"net/http"
 	"os"
 	"path/filepath"
 	"sort"
 	"strings"
+	"sync/atomic"
 	"time"
 
 	"github.com/notaryproject/notation-core-go/revocation"
@@ -239,6 +241,28 @@ func siteInventory() ([]string, error) {
 	})
 	sort.Strings(keys)
 	return keys, err
+}
+
+// zeroBody: left zero bytes, generated on demand; n counts what was read
+type zeroBody struct {
+	left int64
+	n    *int64
+}
+
+func (z *zeroBody) Read(p []byte) (int, error) {
+	if z.left <= 0 {
+		return 0, io.EOF
+	}
+	k := int64(len(p))
+	if k > z.left {
+		k = z.left
+	}
+	for i := int64(0); i < k; i++ {
+		p[i] = 0
+	}
+	z.left -= k
+	atomic.AddInt64(z.n, k)
+	return int(k), nil
 }
 
 func exprText(fset *token.FileSet, n ast.Node) string {
@@ -551,6 +575,41 @@ func genC09(tier string, rng *RNG, w *CaseWriter) {
 			v, _ := revocation.NewWithOptions(revocation.Options{OCSPHTTPClient: client, CRLFetcher: hf, CertChainPurpose: purpose.CodeSigning})
 			v.ValidateContext(ctx, revocation.ValidateContextOptions{CertChain: rxs})
 		}, 8*time.Second)
+	}
+	// (4a') size caps: a server that declares no length and keeps sending; the amount read from it must stay
+	// within the documented cap (20 KiB for OCSP responses, 32 MiB for CRLs) whatever the result is
+	for _, sc := range []struct {
+		name  string
+		ocsp  bool
+		total int64
+		cap   int64
+	}{{"ocsp-endless-body", true, 8 << 20, 20 * 1024}, {"crl-endless-body", false, 48 << 20, 32 << 20}} {
+		sc := sc
+		var read int64
+		body := func(*http.Request) (*http.Response, error) {
+			return &http.Response{StatusCode: 200, ContentLength: -1, Header: http.Header{}, Body: io.NopCloser(&zeroBody{left: sc.total, n: &read})}, nil
+		}
+		rt := newWorldRT()
+		if sc.ocsp {
+			rt.handlers[rxs[0].OCSPServer[0]] = body
+			rt.handlers[rxs[0].CRLDistributionPoints[0]] = func(*http.Request) (*http.Response, error) { return httpBody(500, nil) }
+		} else {
+			rt.handlers[rxs[0].OCSPServer[0]] = func(*http.Request) (*http.Response, error) { return httpBody(500, nil) }
+			rt.handlers[rxs[0].CRLDistributionPoints[0]] = body
+		}
+		client := &http.Client{Transport: rt, Timeout: 20 * time.Second}
+		noteCurrentCase(map[string]any{"labels": []string{sc.name}})
+		out, msg := guarded(func() {
+			hf, _ := crlpkg.NewHTTPFetcher(client)
+			v, _ := revocation.NewWithOptions(revocation.Options{OCSPHTTPClient: client, CRLFetcher: hf, CertChainPurpose: purpose.CodeSigning})
+			v.ValidateContext(context.Background(), revocation.ValidateContextOptions{CertChain: rxs})
+		}, 30*time.Second)
+		if got := atomic.LoadInt64(&read); out == 0 && got > sc.cap+64*1024 {
+			out, msg = 4, fmt.Sprintf("read %d bytes of a server body, the cap is %d", got, sc.cap)
+		}
+		n++
+		w.Count("kind:" + sc.name)
+		w.Emit(fmt.Sprintf("(mk @ID@ %d %d)", 1000000*7+n, out), map[string]any{"kind": sc.name, "outcome": []string{"returned", "panicked", "hung", "", "read beyond the size cap"}[out], "detail": msg}, "size-cap", true)
 	}
 	// (4b) a panic raised inside a background per-certificate check (here: by the caller-supplied transport or fetcher)
 	// must reach the caller's goroutine, where it is recoverable: it must never kill the process
